@@ -1,5 +1,6 @@
 import QibGen.GatesReal
 import QibProofs.Lemmas.GateAlgebra
+import QibProofs.Lemmas.PauliFlags
 import Mathlib.Tactic.NormNum
 import Mathlib.Tactic.Positivity
 /-!
@@ -308,5 +309,26 @@ theorem C01_constructible_unitary {w : ℕ} {ι : Type} [Fintype ι] [DecidableE
 /-! ### non-vacuity: a doubly nested, negatively controlled rotation is constructible -/
 example : Constructible (1 + 2 + 1) (blockOn (fun _ : Fin 1 => false) (blockOn (fun i : Fin 2 => decide (i = 0)) (RxGate.mat 0.3))) :=
   .controlled 1 _ _ (.controlled 2 _ _ (.rx 0.3))
+
+/-! ### "whenever an operator claims to be unitary, its matrix is": Pauli strings and weighted Pauli strings -/
+
+open Qib.Pauli in
+/-- `PauliString.is_unitary()` is the constant True; every string matrix (any length, any phase) is unitary. -/
+theorem C01_PauliString_unitary (n : ℕ) (P : PS) : (P.mat n)ᴴ * P.mat n = 1 ∧ P.mat n * (P.mat n)ᴴ = 1 := by
+  have h := Qib.Pauli.mat_conjTranspose_mul_self n P
+  exact ⟨h, mul_eq_one_comm.mp h⟩
+
+open Qib.Pauli in
+/-- `WeightedPauliString.is_unitary()` answers `abs(weight) == 1`; the weighted string is unitary exactly then. -/
+theorem C01_WeightedPauliString_unitary_iff (n : ℕ) (P : PS) (w : ℂ) :
+    ‖w‖ = 1 ↔ (w • P.mat n)ᴴ * (w • P.mat n) = 1 :=
+  Qib.Pauli.wps_unitary_iff n P w
+
+open Qib.Pauli in
+/-- the executable answer of the model (`|w|² = 1` over exact Gaussian rationals) claims unitarity exactly when the weighted string
+matrix is unitary -/
+theorem C01_WeightedPauliString_claim_iff (n : ℕ) (P : PS) (w : GQ) :
+    wpsIsUnitary w = true ↔ (w.toC • P.mat n)ᴴ * (w.toC • P.mat n) = 1 :=
+  (Qib.Pauli.wpsIsUnitary_iff w).trans (Qib.Pauli.wps_unitary_iff n P w.toC)
 
 end Qib.C01
